@@ -1576,6 +1576,22 @@ class SymbolicDim(_protocols.SymbolicDimProtocol, _display.PrettyPrintable):
             return SymbolicDim(sympy.sympify(other / self._expr))
         return NotImplemented
 
+    def __rfloordiv__(self, other: int) -> SymbolicDim:
+        """Support int // SymbolicDim."""
+        if self._expr is None:
+            return SymbolicDim(None)
+        if isinstance(other, int):
+            return SymbolicDim(sympy.sympify(other // self._expr))
+        return NotImplemented
+
+    def __rmod__(self, other: int) -> SymbolicDim:
+        """Support int % SymbolicDim."""
+        if self._expr is None:
+            return SymbolicDim(None)
+        if isinstance(other, int):
+            return SymbolicDim(sympy.sympify(other % self._expr))
+        return NotImplemented
+
     def __mod__(self, other: int | SymbolicDim) -> SymbolicDim:
         """Compute modulo of this dimension by an integer or another SymbolicDim."""
         if self._expr is None:
